@@ -62,6 +62,12 @@ func feed(path string, delim byte, chunks []string, failAt int) result {
 }
 
 func feedPaused(path string, delim byte, chunks []string, failAt int, pause time.Duration) result {
+	return feedOpt(path, delim, chunks, failAt, pause, false)
+}
+
+// feedOpt: with cancelOnFail the failing callback also finds (makes) the ingester's context cancelled before it
+// returns its error - the situation of a worker whose sibling failed at the same moment.
+func feedOpt(path string, delim byte, chunks []string, failAt int, pause time.Duration, cancelOnFail bool) result {
 	_ = os.Remove(path)
 	if err := syscall.Mkfifo(path, 0o600); err != nil {
 		panic(err)
@@ -76,6 +82,11 @@ func feedPaused(path string, delim byte, chunks []string, failAt int, pause time
 		res.ret = npi.Ingest(ctx, path, delim, func(_ context.Context, s string) error {
 			res.calls = append(res.calls, s)
 			if failAt > 0 && len(res.calls) == failAt {
+				if cancelOnFail {
+					cancel()
+					runtime.Gosched() // let whatever reacts to the cancellation (closing the pipe) run first
+					time.Sleep(time.Millisecond)
+				}
 				return errInjected
 			}
 			return nil
@@ -191,6 +202,7 @@ type job struct {
 	failAt int
 	class  string
 	pause  time.Duration // sleep between the writes (a writer that stalls mid-record)
+	cancel bool          // the failing callback finds the context cancelled when it returns its error
 }
 
 func (j job) parts() []string {
@@ -226,6 +238,26 @@ func runC12(run *mc.Run) int {
 		n = 8
 	}
 	dir := scratchDir()
+	if run.Replay != "" {
+		var rp struct {
+			Writes []string `json:"writes"`
+			Delim  int      `json:"delim"`
+			FailAt int      `json:"fail_at"`
+			Cancel bool     `json:"cancel_on_fail"`
+		}
+		if _, err := mc.LoadReplay(run.Replay, &rp); err != nil || rp.Delim == 0 {
+			fmt.Println("cannot load replay:", err)
+			return 2
+		}
+		r := feedOpt(filepath.Join(dir, "replay"), byte(rp.Delim), rp.Writes, rp.FailAt, 0, rp.Cancel)
+		m := judge(strings.Join(rp.Writes, ""), byte(rp.Delim), rp.FailAt, r)
+		fmt.Printf("writes %q fail_at=%d cancel_on_fail=%v: callbacks %q returned %v: %s\n", short(rp.Writes), rp.FailAt, rp.Cancel, short(r.calls), r.ret, m)
+		if m != "" {
+			fmt.Printf("VIOLATION property=C12 replay=%s\n", run.Replay)
+			return 1
+		}
+		return 0
+	}
 	jobs := make(chan job, 256)
 	var evals, multi, hangs, skipped int64
 	var wg sync.WaitGroup
@@ -243,7 +275,7 @@ func runC12(run *mc.Run) int {
 					continue // the ingester no longer returns at end-of-stream: already reported
 				}
 				parts := j.parts()
-				r := feedPaused(path, j.delim, parts, j.failAt, j.pause)
+				r := feedOpt(path, j.delim, parts, j.failAt, j.pause, j.cancel)
 				if r.hung {
 					atomic.AddInt64(&hangs, 1)
 				}
@@ -259,7 +291,7 @@ func runC12(run *mc.Run) int {
 				smu.Unlock()
 				if m := judge(j.stream, j.delim, j.failAt, r); m != "" {
 					run.Violation("C12:"+j.class+":"+strings.Join(strings.Fields(m)[:2], "_"),
-						map[string]any{"writes": parts, "delim": int(j.delim), "fail_at": j.failAt},
+						map[string]any{"writes": parts, "delim": int(j.delim), "fail_at": j.failAt, "cancel_on_fail": j.cancel},
 						fmt.Sprintf("stream written as %d writes %q (delimiter %q, callback failing at %d): %s", len(parts), short(parts), j.delim, j.failAt, m))
 				}
 			}
@@ -313,6 +345,11 @@ func runC12(run *mc.Run) int {
 		for k := 1; k <= 5; k++ {
 			for _, cs := range []int{1, 2, 3, len(s)} {
 				emit(job{stream: s, chunks: chunkBy(s, cs), delim: '\n', failAt: k, class: "callback-error"})
+				if cs == 1 || cs == len(s) {
+					// ... and the same with the context cancelled by the time the callback returns its error:
+					// the error is still the callback's own
+					emit(job{stream: s, chunks: chunkBy(s, cs), delim: '\n', failAt: k, class: "callback-error-under-cancelled-context", cancel: true})
+				}
 			}
 		}
 	}
